@@ -174,6 +174,24 @@ def rule_M(ctx):
                 if (got is None or got[0] != want or got[1] != 0) and len(bad) < 6:
                     bad.append({'mode': mname, 'feature values vs their thresholds (observation 0)': list(combo), 'thresholds': thresholds,
                                 'markers (observation 0, all-below observation 1)': got, 'expected': [want, 0]})
+    # a second segmentation of the same track into the same marker name (other thresholds): the markers are those of the second run
+    for mname, mval in consts.items():
+        t = TrackS(3, {'f0': [15.0, 5.0, 25.0]})
+        runs = [([10.0], [1, 0, 1]), ([20.0], [0, 0, 1]), ([30.0], [0, 0, 0])]
+        for thr_, want in runs:
+            try:
+                orders.make_func(f.node, fn)(**{tr: t, afs: ['f0'], afo: 'OUT', thr: list(thr_), mode: mval})
+            except orders.Unsupported as e:
+                raise shape_error('segmentation() not interpretable: %s' % e, f.loc())
+            except (IndexError, KeyError, TypeError) as e:
+                bad.append({'mode': mname, 'exception': '%s: %s' % (type(e).__name__, e)})
+                break
+            total += 1
+            if t.feats.get('OUT') != want and len(bad) < 6:
+                bad.append({'mode': mname, 'values': [15.0, 5.0, 25.0], 'successive segmentations of the same track into the same marker, thresholds': [r_[0][0] for r_ in runs],
+                            'threshold of this run': thr_[0], 'markers': t.feats.get('OUT'), 'expected': want,
+                            'why': 'a marker left by an earlier segmentation must not survive where the value no longer exceeds the threshold'})
+                break
     ctx.check(not bad, 'C11.M', f,
               'marker == 1 exactly where a tested feature exceeds ITS threshold (any in AND mode, all in OR mode; NaN '
               'ignored; a value equal to the threshold does not exceed it) on all %d cases' % total,
